@@ -33,12 +33,8 @@ including the remaining handlers of the signal being dispatched and of every sig
 adds a handler call to the history. -/
 theorem C09_force_quit_no_call (P : Prog) (c0 c c1 c2 : Cfg) (h0 : Started c0) (hr : Reach P c0 c)
     (hA : AfterStart c) (hf : c.L.forceQuit = true) (hs : Steps P c c1) (ht : Trans P c1 c2)
-    (h : HRef) (d : Option Nat) (s : Sig) : Tr.call h d s ∉ newTr c1 c2 := by
-  intro hm
-  have hf1 := (fq_persist_steps hA hf hs).2
-  have hhead := (trans_origin ht).toNewTr.2 _ hm
-  obtain ⟨_, _, _, _, hf0⟩ := (codeInv_reach h0 (reach_steps hr hs)).headCall h d s hhead
-  rw [hf1] at hf0; cases hf0
+    (h : HRef) (d : Option Nat) (s : Sig) : Tr.call h d s ∉ newTr c1 c2 :=
+  fq_no_call h0 hr hA hf hs ht h d s
 
 /-- … and in a single transition this needs no start-up hypothesis: out of a reachable configuration with
 force-quit set no transition adds a handler call. -/
@@ -131,14 +127,8 @@ contains one, nothing is pending any more; every such event carries the datum re
 the registration itself never changes. -/
 theorem C09_quit_callback_once (P : Prog) (c0 c : Cfg) (h0 : Started c0) (hr : Reach P c0 c) :
     c.log.countP isQuitcbEv ≤ 1 ∧ (c.log.countP isQuitcbEv = 1 → c.code = []) ∧
-    (∀ d, Ev.quitcb d ∈ c.log → c0.L.quitCb = some d) ∧ c.L.quitCb = c0.L.quitCb := by
-  obtain ⟨hq, he⟩ := quitInv_reach h0 hr
-  refine ⟨?_, ?_, hq.arg, he⟩
-  · rcases hq.count with h | ⟨h, -⟩ <;> omega
-  · intro h1
-    rcases hq.count with h | ⟨-, h⟩
-    · omega
-    · exact h
+    (∀ d, Ev.quitcb d ∈ c.log → c0.L.quitCb = some d) ∧ c.L.quitCb = c0.L.quitCb :=
+  quit_once h0 hr
 
 /-- … and it is there **iff the run has passed it**: the transition that logs it is the step of the last
 pending instruction `quitCb`, and a run that returns has logged it (if one is registered). -/
@@ -261,6 +251,35 @@ example :
       callsOf { id := 7, cls := .user 0, prio := 0, src := .none } r.1.tr = [(.user 1, none)] ∧
       r.1.log.countP isQuitcbEv = 1 ∧ Ev.quitcb 5 ∈ r.1.log := by
   decide +kernel
+
+/-- … as a live run that returns: `C09_nothing_else_ends` and `C09_returned_ran_quit_callback` apply to it -/
+example :
+    ∃ c, Live C09_exitProg
+        (initCfg [.enq (.user 0) 0 .none 7]
+          [(.user 0, .user 1, none), (.user 1, .user 2, none), (.user 0, .user 3, none)] (some 5) []) c ∧
+      step C09_exitProg c = .error (.returned, c) ∧ Tr.exit ∈ c.tr ∧ Tr.forceQuit ∉ c.tr :=
+  ⟨runLive C09_exitProg 100 _, runLive_live 100 .init,
+    (C09_returned_iff _ _ _).2 ⟨List.isEmpty_iff.1 (by decide +kernel), rfl⟩, by decide +kernel, by decide +kernel⟩
+
+/-- … and the force-quit run: it returns without any exit request, after the outermost loop was left -/
+example :
+    ∃ c, Live C09_fqProg
+        (initCfg [.enq (.user 0) 0 .none 7] [(.user 0, .user 1, none), (.user 0, .user 2, none)] (some 5) []) c ∧
+      step C09_fqProg c = .error (.returned, c) ∧ Tr.exit ∉ c.tr ∧ Tr.loopReturn 0 ∈ c.tr ∧ Tr.forceQuit ∈ c.tr :=
+  ⟨runLive C09_fqProg 100 _, runLive_live 100 .init,
+    (C09_returned_iff _ _ _).2 ⟨List.isEmpty_iff.1 (by decide +kernel), rfl⟩, by decide +kernel, by decide +kernel,
+    by decide +kernel⟩
+
+/-- Why `Live` and not `Reach` in `C09_nothing_else_ends`: `Reach` also contains the *final* configuration of a run that
+died (here: killed by an unhandled `ExceptionSignal`), which has no code left either, so that the machine, stepped once
+more from there, reports `returned` — although that run neither saw an exit request nor a force-quit. -/
+theorem C09_nothing_else_ends_needs_live :
+    ∃ (P : Prog) (c0 c : Cfg), Started c0 ∧ Reach P c0 c ∧ step P c = .error (.returned, c) ∧
+      Tr.kill ∈ c.tr ∧ Tr.exit ∉ c.tr ∧ Tr.forceQuit ∉ c.tr :=
+  ⟨{ C09_fqProg with handlerScript := fun _ _ => [.raiseErr] },
+    initCfg [.enq (.user 0) 0 .none 7] [(.user 0, .user 1, none)] none [], _, ⟨_, _, _, _, rfl⟩,
+    runFuel_reach _ 100 _, (C09_returned_iff _ _ _).2 ⟨List.isEmpty_iff.1 (by decide +kernel), rfl⟩,
+    by decide +kernel, by decide +kernel, by decide +kernel⟩
 
 /-- nothing scheduled, default configuration: refused -/
 example :
